@@ -138,14 +138,26 @@ class FunctionCurveBase(PointCurveBase):
         """Finds the param on curve where point is the closest to given point;
         To improve search speed and reliability, an optional starting
         estimation can be supplied."""
-        param_start = super().get_closest_param(point)
         point = np.array(point)
 
-        result = scipy.optimize.minimize(
-            lambda t: f.norm(self.get_point(t[0]) - point), (param_start,), bounds=(self.bounds,)
-        )
+        def distance(param):
+            return f.norm(self.get_point(param) - point)
 
-        return result.x[0]
+        # a coarse search first; curves can have all sorts of shapes
+        # and a local search alone can end up on a wrong part of the curve (or at its end)
+        params = np.linspace(self.bounds[0], self.bounds[1], num=101)
+        distances = [distance(t) for t in params]
+        i_closest = int(np.argmin(distances))
+
+        # then refine between neighbours of the closest sample
+        lower = params[max(i_closest - 1, 0)]
+        upper = params[min(i_closest + 1, len(params) - 1)]
+        result = scipy.optimize.minimize_scalar(distance, bounds=(lower, upper), method="bounded", options={"xatol": 1e-12})
+
+        if result.fun < distances[i_closest]:
+            return result.x
+
+        return params[i_closest]
 
     def get_point(self, param: float) -> NPPointType:
         self._check_param(param)
